@@ -55,6 +55,10 @@ type blob struct {
 	ackAt  time.Duration
 	backed bool // the backend was observed holding exactly the blob
 	local  bool // local copy present at the previous observation
+	// tasklessPin: an injected SQL error failed the insert of a write-back task
+	// for this blob after its persist flag had been written (time of the last one)
+	tasklessPin   bool
+	tasklessPinAt time.Duration
 }
 
 type flags struct {
@@ -67,6 +71,9 @@ type world struct {
 	// write-back delay; maxDelay is the longest delay acknowledged
 	dups     bool
 	maxDelay time.Duration
+	// forced cleanup requests: in flight now / time the last one returned
+	forceInFlight int
+	lastForceEnd  time.Duration
 
 	s   *simrt.Sim
 	hn  *simhttp.Net
@@ -135,6 +142,15 @@ func (w *world) check(s *simrt.Sim) {
 				s.Fail("local_copy_lost_backend_partial", "blob %d (%d bytes) was acknowledged at %v; at %v the origin has no local copy and the backend holds %d different bytes (not the blob)",
 					b.idx, len(b.data), b.ackAt, s.Now(), len(remote))
 			} else {
+				if b.tasklessPin && (w.forceInFlight > 0 || w.lastForceEnd >= b.tasklessPinAt) {
+					// The recorded finding (DESIGN.md §11, known_findings.json): forced
+					// cleanup treats a pinned blob without a write-back task as leaked
+					// and deletes it, racing the conflict path that re-adds the task
+					// and acknowledges. Classified separately so that every other loss
+					// of a local copy is still reported under the general name.
+					s.Fail("local_copy_lost_forced_cleanup_of_taskless_pin", "blob %d (%d bytes) was acknowledged at %v; at %v the origin has no local copy although the backend does not hold the blob; the insert of its write-back task had failed at %v (persist flag already written) and a forced cleanup ran after that",
+						b.idx, len(b.data), b.ackAt, s.Now(), b.tasklessPinAt)
+				}
 				s.Fail("local_copy_lost_before_writeback", "blob %d (%d bytes) was acknowledged at %v; at %v the origin has no local copy although the backend does not hold the blob",
 					b.idx, len(b.data), b.ackAt, s.Now())
 			}
@@ -361,7 +377,10 @@ func (w *world) client(id int, nOps int, cc blobclient.ClusterClient) {
 					before++
 				}
 			}
+			w.forceInFlight++
 			err := single.ForceCleanup(0)
+			w.forceInFlight--
+			w.lastForceEnd = s.Now()
 			after := 0
 			for _, x := range w.blobs {
 				if _, ok := oc.LocalCopy(w.dir, x.hex); ok {
@@ -406,6 +425,13 @@ func body(s *simrt.Sim, tier string) {
 		s.Disk().SQLFaultFn = func(n *simrt.Node, stmt string) error {
 			if !w.stop && strings.HasPrefix(stmt, "INSERT writeback_task") && s.Tape.Chance(pm) {
 				s.Fault("sql_insert_error")
+				if _, t := simrt.Cur(); t != nil {
+					for _, b := range w.blobs {
+						if strings.Contains(t.Name, b.hex) {
+							b.tasklessPin, b.tasklessPinAt = true, s.Now()
+						}
+					}
+				}
 				return errors.New("database is locked")
 			}
 			return nil
